@@ -443,6 +443,12 @@ def _notnew_constructor(loader, node):
 
 
 @rethrow_as_parsing_error
+def _safe_constructor(loader, node):
+    # the counterpart of "!unsafe": written by dump for a node which is explicitly marked as safe in an unsafe source
+    return _make_node(loader, node, kwargs={ 'safe': True })
+
+
+@rethrow_as_parsing_error
 def _unsafe_constructor(loader, node):
     return _make_node(loader, node, kwargs={ 'safe': False })
 
@@ -522,6 +528,7 @@ add_constructor('!path', _simple_path_constructor)
 add_constructor('!new', _new_constructor)
 add_constructor('!notnew', _notnew_constructor)
 add_constructor('!unsafe', _unsafe_constructor)
+add_constructor('!safe', _safe_constructor)
 add_constructor('!clear', _clear_constructor)
 add_multi_constructor('!clear:', _clear_constructor_md)
 add_constructor('!extend', _extend_constructor)
